@@ -393,16 +393,6 @@ def check_cases(res, ctx, cases, root, offset, bins):
 
 # ------------------------------------------------------------------ text layer (Model/EtradeText.v)
 
-def known_c19():
-    out = []
-    for p in (os.path.join(common.VERIF, "known-findings.json"), os.path.join(common.VERIF, "known-findings.d", "C19.json")):
-        if os.path.exists(p):
-            for k in json.load(open(p)).get("findings", []):
-                if k.get("property") == "C19" and k.get("id") not in [x.get("id") for x in out]:
-                    out.append(k)
-    return out
-
-
 GRANT_ROW_RE = re.compile(r"Grant Number\s+\d+")
 
 
@@ -418,23 +408,29 @@ def eso_named_grants(text):
     return len(GRANT_ROW_RE.findall(text[p:q + len("Exercise Date")]))
 
 
-def replay_known_text(res, ctx, root):
-    """the witness of the known finding `eso-grant-row-missing` through the whole tool"""
-    for k in known_c19():
-        w = k.get("witness", {})
-        if "text_files" not in w:
-            continue
-        d = os.path.join(root, "known-" + k["id"])
-        paths = []
-        for f in w["text_files"]:
-            p = os.path.join(d, f["path"])
-            os.makedirs(os.path.dirname(p), exist_ok=True)
-            open(p, "w").write(f["text"])
-            paths.append(p)
-        o = run_harness(ctx["exe"], "extract", [{"files": paths}], nproc=1)[0]
-        ctx["stats"]["known_witness_replayed"] += 1
-        if o.get("rc") == 0 and w["lost"] not in o.get("out", "") and w["kept"] in o.get("out", ""):
-            res.known(k["what"])
+def eso_regression(res, ctx, root):
+    """regression case of the fixed defect c454485 through the whole tool: an exercise confirmation with a missing
+    per-grant row must end in a diagnostic; the silent loss of the grant is a failing input"""
+    files, lost, kept = T.eso_missing_row_witness()
+    d = os.path.join(root, "eso-missing-row")
+    paths = []
+    for name, text in files:
+        p = os.path.join(d, name)
+        os.makedirs(os.path.dirname(p), exist_ok=True)
+        open(p, "w").write(text)
+        paths.append(p)
+    o = run_harness(ctx["exe"], "extract", [{"files": paths}], nproc=1)[0]
+    ctx["stats"]["eso-missing-row-regression"] += 1
+    if o.get("status") == "panic":
+        return          # totality is C05's; the text pass compares the outcome class with the model
+    if o.get("rc") == 0:
+        if lost not in o.get("out", ""):
+            res.violation("failing-input", "an exercise confirmation names two grants (100 and 200 exercised shares); the tool exits 0 and the "
+                          "output has no purchase for the grant whose Comission/Fee row is missing (%s)" % lost,
+                          {"text_files": [{"path": n, "text": t} for n, t in files], "lost": lost, "actual_impl": o,
+                           "expected_spec": "each benefit yields one purchase, or the tool reports an error"})
+    elif "Exercise details are incomplete" in o.get("err", ""):
+        ctx["stats"]["eso-missing-row-diagnosed"] += 1
 
 
 def text_pass(res, ctx, rng, root):
@@ -444,7 +440,7 @@ def text_pass(res, ctx, rng, root):
     (the statement's data is returned exactly) and the Gallina renderers against the Python ones"""
     st = ctx["stats"]
     tier = ctx["tier"]
-    replay_known_text(res, ctx, root)
+    eso_regression(res, ctx, root)
     seen = set()
     plain = []
     for f in ctx.get("text_files", []):
@@ -517,19 +513,18 @@ def text_pass(res, ctx, rng, root):
                 dropped.append((d, io_, n, len(impl["recs"])))
     st["text-model-diffs"] = len(diffs)
     st["text-panics-of-the-real-code"] = len(panics)
-    st["text-eso-grants-silently-dropped(known class)"] = len(dropped)
+    st["text-eso-grants-silently-dropped"] = len(dropped)
     ctx["text_panics"] = [dict(kind=d[1], op=d[2], panic=io_.get("panic"), text=d[4]) for d, io_ in panics[:3]]
     for d, io_, de in exp_fail[:1]:
         res.violation("failing-input", "text layer: a document in a supported layout is not read as printed: " + de,
                       {"text_doc": {"text": d[4], "path": d[5], "kind": d[1], "rec": d[3]["rec"], "style": d[3].get("style", 0)},
                        "expected_spec": "parse_pdf_text returns the printed data of the document", "actual_impl": io_,
                        "differing_documents": len(exp_fail)})
-    known_ids = [k.get("id") for k in known_c19()]
-    if dropped and "eso-grant-row-missing" not in known_ids:
+    if dropped:
         d, io_, n, m = dropped[0]
         res.violation("failing-input", "text layer: an exercise confirmation names %d grants, %d benefits are returned and no error" % (n, m),
                       {"text_doc": {"text": d[4], "path": d[5], "kind": d[1]}, "actual_impl": io_,
-                       "expected_spec": "each benefit is accounted for exactly once, or an error"})
+                       "expected_spec": "each benefit is accounted for exactly once, or an error", "documents": len(dropped)})
     if diffs and not res.violations:
         d, io_, dd = diffs[0]
         res.violation("broken-correspondence", "text-layer model and parse_pdf_text differ (%s document, %s): %s" % (d[1], d[2], dd),
@@ -624,11 +619,8 @@ def replay_text(res, ctx, obj):
     if impl["status"] == "ok" and impl["kind"] == "benefits" and any(r["note"].startswith("Option Grant") for r in impl["recs"]):
         n = eso_named_grants(d["text"])
         if n is not None and n > len(impl["recs"]):
-            if "eso-grant-row-missing" in [k.get("id") for k in known_c19()]:
-                res.known([k["what"] for k in known_c19() if k.get("id") == "eso-grant-row-missing"][0])
-            else:
-                res.violation("failing-input", "text layer: an exercise confirmation names %d grants, %d benefits are returned and no error" % (n, len(impl["recs"])),
-                              {"text_doc": d, "actual_impl": io_})
+            res.violation("failing-input", "text layer: an exercise confirmation names %d grants, %d benefits are returned and no error" % (n, len(impl["recs"])),
+                          {"text_doc": d, "actual_impl": io_})
     dd = T.diff(model, impl)
     if dd is not None and not res.violations:
         res.violation("broken-correspondence", "text-layer model and parse_pdf_text differ: " + dd,
@@ -637,8 +629,31 @@ def replay_text(res, ctx, obj):
     return res.finish(common.check_proofs("C19"))
 
 
+def replay_text_files(res, ctx, obj):
+    """replay of a whole-tool text regression: the files through run_with_args; a grant named in the text that is
+    missing from the output of a successful run is the failure"""
+    root = os.path.join(RUNROOT, "etrade-replay-%d" % os.getpid())
+    paths = []
+    try:
+        for f in obj["text_files"]:
+            p = os.path.join(root, f["path"])
+            os.makedirs(os.path.dirname(p), exist_ok=True)
+            open(p, "w").write(f["text"])
+            paths.append(p)
+        o = run_harness(ctx["exe"], "extract", [{"files": paths}], nproc=1)[0]
+    finally:
+        shutil.rmtree(root, ignore_errors=True)
+    if o.get("rc") == 0 and obj.get("lost") and obj["lost"] not in o.get("out", ""):
+        res.violation("failing-input", "the tool exits 0 and the output has no purchase for %s, which the exercise confirmation names" % obj["lost"],
+                      {"text_files": obj["text_files"], "lost": obj["lost"], "actual_impl": o})
+    res.coverage.update({"evaluations": 1, "distinct_nontrivial": 1, "rule": "replay of a text regression case", "samples": [{"rc": o.get("rc")}]})
+    return res.finish(common.check_proofs("C19"))
+
+
 def replay(res, ctx, path):
     obj = json.load(open(path))
+    if "text_files" in obj:
+        return replay_text_files(res, ctx, obj)
     if "text_doc" in obj:
         return replay_text(res, ctx, obj)
     case = {"files": [{"path": f["path"], "kind": f["kind"], "style": f.get("style", 0), "rec": f["rec"]} for f in obj["input"]["files"]]}
